@@ -51,7 +51,7 @@ func (x pc) witness() map[string]any {
 func TestCheck(t *testing.T) {
 	r := vf.Start(t, "C30", vf.Exploration)
 	defer r.Finish()
-	r.SetRule("Part 1: for several session ids, a table hash -> (protocol id, context) over generated pairs: every split of PRNG strings (p||c fixed, boundary moved: the boundary-shifted family), boundary-shifted families at every scale (one base string of 257..~70k bytes split at i and at i+k for k in {1,2,127..129,255..257,511..513,768,1024,4096,65535..65537}, and with the context length in {0,1,255,256,257,512}: what a too narrow or wrapped length prefix confuses), the design's universe, PRNG pairs, empty/nil contexts, contexts starting with the tail of the id, derivation families (a base pair and every pair derived from it by the derivation table, see the DERIVATION block); two different pairs with the same hash = violation; same pair twice must hash equally. Part 2: two real solicitation controllers on two controller buses joined by harness links (fake MountedLinks, in-memory streams, HandleMountedStream dispatch like the transport controller); scenario = per node a PRNG set of SolicitProtocol directives over a small universe (protocol ids / contexts incl. boundary-shifted ones, peer constraint in {none, right, wrong}, transport constraint in {0, right, other link's, wrong}), 1-2 links; static scenarios register all directives (idle) before the links appear, dynamic ones (one third) bring the links up first and then register the directives one by one in a PRNG order. one scenario in four is built around requests on one bus that differ only in the context (empty vs non-empty, prefix of each other) or only in the protocol id, in either registration order, the other node soliciting a PRNG subset of them. A further block of HISTORY scenarios (own batches) puts two or three families of two/three DIFFERENT requests on ONE node whose (id, context) coincide when joined with a separator-like string (a+sep+b, c) vs (a, b+sep+c), sep taken round-robin from {/ : | NUL space - . , ; _ # = @ + LF TAB // :: NULNUL and the empty string = plain concatenation}, middle part sometimes empty; the other node solicits exactly one member of every family (one time in four: two); histories: static (all before the links), staged (links first; first siblings + early remote requests; process-wide QUIESCENCE; second siblings; QUIESCENCE; third siblings + late remote requests - so the first sibling has been advertised / matched on the link before the second exists, in both sibling orders), together (links first, everything back to back); four fixed staged witnesses around (\"dex/x\",\"y\") / (\"dex\",\"x/y\"). A DERIVATION block (own batches, static / staged / together): a base request whose context has 33..4096 bytes (also 1..32) on one node while the other node (one time in three: the same node) solicits one to three pairs DERIVED from it by a rule of a 34-rule table - context replaced by its BLAKE3-256/512, SHA-1/256/512, MD5 or double digest, its hex / HEX / base58 / base64 form, its first 32/64/255/256/1024 or last 32 bytes, context with the id's digest appended / prepended, digest of id+context, length-prefixed context, id replaced by its hex digest / truncated / lower-cased, id absorbing the context digest - plus a shared long-context pair that must match; the same families are in the Part 1 table. A SET-CHANGE block (own batches; scripted histories on live, quiescent links): a node's solicitation set changes WITHOUT a quiescence in between - one request replaced by another (add-then-withdraw and withdraw-then-add, same set size), a subset or all of k requests replaced, the same pair withdrawn and solicited again, both nodes switching context - while the node's control stream is under back-pressure (harness streams with a write gate: the change is issued only after the node's control loop has been seen parked inside the send of its previous set) or back to back with no back-pressure; the changing node is the lower peer id (opens the streams) or the higher one; released requests are withdrawn through Instance.Close, Reference.Release+CloseIfUnreferenced, or - requests registered with the controller directly - by cancelling the resolver and waiting for Resolve to return; the other node solicits the new pairs before or after the change, plus near misses. For scripted histories the 'if' direction is demanded for a request that is still registered at the end whose counterpart on the other node is still registered, when both are the first request their node ever made for that pair and link (the controller matches a pair once per link); values of released requests are not judged in the 'if' direction. Every harness-side request has its own reference and value handler and is judged by its own (p,c,constraints), also when the bus de-duplicates it onto an earlier request's directive (only exception: requests differing in nothing but the transport constraint on a tree that merges them, property C37 - not generated, inconclusive if seen). Oracle (harness ground truth, independent of any hash): directive d on node X receives a value for link L iff d admits L and the other node has a directive with the same (p,c) admitting L; checked at quiescence (all goroutines parked, stream byte counters stable); the 'only if' direction is checked for every directive, the 'if' direction for every directive of a static scenario and for the first registered one per (p,c) and node in a dynamic scenario. Non-trivial = a pure pair whose concatenation equals that of another pair, or a scenario in which at least one match is expected and at least one (p,c)-overlap is refused by a constraint or by differing (p,c); distinct = distinct pair / scenario")
+	r.SetRule("Part 1: for several session ids, a table hash -> (protocol id, context) over generated pairs: every split of PRNG strings (p||c fixed, boundary moved: the boundary-shifted family), boundary-shifted families at every scale (one base string of 257..~70k bytes split at i and at i+k for k in {1,2,127..129,255..257,511..513,768,1024,4096,65535..65537}, and with the context length in {0,1,255,256,257,512}: what a too narrow or wrapped length prefix confuses), the design's universe, PRNG pairs, empty/nil contexts, contexts starting with the tail of the id, derivation families (a base pair and every pair derived from it by the derivation table, see the DERIVATION block); two different pairs with the same hash = violation; same pair twice must hash equally. Part 2: two real solicitation controllers on two controller buses joined by harness links (fake MountedLinks, in-memory streams, HandleMountedStream dispatch like the transport controller); scenario = per node a PRNG set of SolicitProtocol directives over a small universe (protocol ids / contexts incl. boundary-shifted ones, peer constraint in {none, right, wrong}, transport constraint in {0, right, other link's, wrong}), 1-2 links; static scenarios register all directives (idle) before the links appear, dynamic ones (one third) bring the links up first and then register the directives one by one in a PRNG order. one scenario in four is built around requests on one bus that differ only in the context (empty vs non-empty, prefix of each other) or only in the protocol id, in either registration order, the other node soliciting a PRNG subset of them. A further block of HISTORY scenarios (own batches) puts two or three families of two/three DIFFERENT requests on ONE node whose (id, context) coincide when joined with a separator-like string (a+sep+b, c) vs (a, b+sep+c), sep taken round-robin from {/ : | NUL space - . , ; _ # = @ + LF TAB // :: NULNUL and the empty string = plain concatenation}, middle part sometimes empty; the other node solicits exactly one member of every family (one time in four: two); histories: static (all before the links), staged (links first; first siblings + early remote requests; process-wide QUIESCENCE; second siblings; QUIESCENCE; third siblings + late remote requests - so the first sibling has been advertised / matched on the link before the second exists, in both sibling orders), together (links first, everything back to back); four fixed staged witnesses around (\"dex/x\",\"y\") / (\"dex\",\"x/y\"). A DERIVATION block (own batches, static / staged / together): a base request whose context has 33..4096 bytes (also 1..32) on one node while the other node (one time in three: the same node) solicits one to three pairs DERIVED from it by a rule of a 34-rule table - context replaced by its BLAKE3-256/512, SHA-1/256/512, MD5 or double digest, its hex / HEX / base58 / base64 form, its first 32/64/255/256/1024 or last 32 bytes, context with the id's digest appended / prepended, digest of id+context, length-prefixed context, id replaced by its hex digest / truncated / lower-cased, id absorbing the context digest - plus a shared long-context pair that must match; the same families are in the Part 1 table. A SET-CHANGE block (own batches; scripted histories on live, quiescent links): a node's solicitation set changes WITHOUT a quiescence in between - one request replaced by another (add-then-withdraw and withdraw-then-add, same set size), a subset or all of k requests replaced, the same pair withdrawn and solicited again, both nodes switching context - while the node's control stream is under back-pressure (harness streams with a write gate: the change is issued only after the node's control loop has been seen parked inside the send of its previous set) or back to back with no back-pressure; the changing node is the lower peer id (opens the streams) or the higher one; released requests are withdrawn through Instance.Close, Reference.Release+CloseIfUnreferenced, or - requests registered with the controller directly - by cancelling the resolver and waiting for Resolve to return; the other node solicits the new pairs before or after the change, plus near misses. For scripted histories the 'if' direction is demanded for a request that is still registered at the end whose counterpart on the other node is still registered, when both are the first request their node ever made for that pair and link (the controller matches a pair once per link); values of released requests are not judged in the 'if' direction. A MANY-SOLICITATIONS block (own batches of 4; 4 scenarios in the quick tier): one node - every third scenario both - holds 200..256 distinct requests admitted on the same link (256 = the controller's default limit of hashes per exchange, never exceeded, so no exchange is truncated; set sizes first 256, 249, 241, 255, 242, 240, 250, 248, ... then PRNG in 236..256 / 200..256), the other node a handful or 200..256 as well; all but 1-3 SHARED pairs are fillers without counterpart (same protocol id on both nodes, contexts differing in the node tag: near misses); histories: static (everything before the link: one exchange carries the whole set), staged (most fillers before the link, the last 0..40 per node on the live link, process-wide QUIESCENCE, then the shared pairs), together (the last 0..40 fillers per node and the shared pairs at PRNG positions back to back on the live link; beyond the quick tier every fourth history registers all requests on the live link); the shared pairs must be matched (missing-match oracle), no filler may be. Every harness-side request has its own reference and value handler and is judged by its own (p,c,constraints), also when the bus de-duplicates it onto an earlier request's directive (only exception: requests differing in nothing but the transport constraint on a tree that merges them, property C37 - not generated, inconclusive if seen). Oracle (harness ground truth, independent of any hash): directive d on node X receives a value for link L iff d admits L and the other node has a directive with the same (p,c) admitting L; checked at quiescence (all goroutines parked, stream byte counters stable); the 'only if' direction is checked for every directive, the 'if' direction for every directive of a static scenario and for the first registered one per (p,c) and node in a dynamic scenario. Non-trivial = a pure pair whose concatenation equals that of another pair, or a scenario in which at least one match is expected and at least one (p,c)-overlap is refused by a constraint or by differing (p,c); distinct = distinct pair / scenario")
 
 	purePart(r)
 	g10sol.RunTwoNodeC30(r)
